@@ -94,6 +94,24 @@ def formatter_layout(chk) -> Dict[str, Tuple[int, int]]:
     return got
 
 
+def _writer_reader_columns(chk, lay: Dict[str, Tuple[int, int]]) -> None:
+    """Sibling agreement: the columns a field is written to (found on probe rows) are the columns parse_pdb_atoms reads it from."""
+    from checks import c08
+
+    repo = chk.repo
+    sp = spec("pdb_columns.json")
+    fi = repo.func(M, "_format_pdb_atom_line") if repo.has_func(M, "_format_pdb_atom_line") else repo.func(M, "write_pdb")
+    rd, how = c08.reader_slices(chk, "v2")
+    if how == "none":
+        chk.error("writer-reader-columns", fi.where, "the columns parse_pdb_atoms takes its fields from could not be established")
+        return
+    for field, want in sp["atom"].items():
+        g = lay.get(field)
+        r = rd.get(field)
+        inside = g is not None and r is not None and r[0] <= g[0] and g[1] <= r[1]
+        chk.expect(inside, "writer-reader-columns", fi.where, f"{field}: written inside the columns the reader slices ({r})", f"{field}: writer puts it at {g}, reader takes {r}", f"{M}:columns:{field}", expected=list(r) if r else None, found=list(g) if g else None)
+
+
 def check_formatter_details(chk) -> None:
     repo = chk.repo
     fi = repo.func(M, "_format_pdb_atom_line")
@@ -102,6 +120,10 @@ def check_formatter_details(chk) -> None:
     for var, want in prec.items():
         e = src.get(var)
         ok = isinstance(e, ast.JoinedStr) and len(e.values) == 1 and isinstance(e.values[0], ast.FormattedValue) and e.values[0].format_spec is not None and "".join(x.value for x in e.values[0].format_spec.values if isinstance(x, ast.Constant)) == want
+        if not ok and not (isinstance(e, ast.JoinedStr) and len(e.values) == 1 and isinstance(e.values[0], ast.FormattedValue)):
+            # another way of formatting a number (%-formatting, format(), str.format, round): this reading cannot tell what it does
+            chk.error("numeric-format", fi.where, f"{var} is not formatted by an f-string with a format spec (`{norm(e)[:60] if e is not None else 'not found'}`): its precision is not read off here")
+            continue
         chk.expect(ok, "numeric-format", fi.where, f"{var} is formatted {want}", f"{var} is not formatted with :{want}", K(fi, f"format:{var}"), found=norm(e) if e is not None else None)
     just = {"serial": "rjust(5)", "res_name": "rjust(3)", "res_seq": "rjust(4)", "element": "rjust(2)", "record_name": "ljust(6)"}
     for var, want in just.items():
@@ -492,11 +514,115 @@ def check_reader(chk) -> None:
             chk.error("null-agreement", fi.where, "how blank optional PDB fields are read could not be established (line loop not evaluable, pinned form not found)")
 
 
+REORDERING = {"sort_values", "sort_index", "sample", "reindex", "nlargest", "nsmallest", "sort", "reverse"}
+
+
+def check_row_order(chk) -> None:
+    """The writers emit the rows in the order of the table: nothing on the way from the parameter to the row loop reorders it.
+    write_pdb is also evaluated on tables in no particular order (c09e); for write_cif, whose body builds mmcif library objects,
+    this reading of the calls made on the table (the parameter and the names it is assigned to) is the decision."""
+    repo = chk.repo
+    chk.robust.add("row-order")
+    for name in ("write_pdb", "write_cif"):
+        if not repo.has_func(M, name):
+            continue
+        fi = repo.func(M, name)
+        if not fi.node.args.args:
+            continue
+        tables = {fi.node.args.args[0].arg}
+        changed = True
+        while changed:
+            changed = False
+            for st in astq.walk_no_nested(fi.node):
+                if isinstance(st, ast.Assign) and len(st.targets) == 1 and isinstance(st.targets[0], ast.Name) and st.targets[0].id not in tables:
+                    root = st.value
+                    while isinstance(root, (ast.Call, ast.Attribute, ast.Subscript)):
+                        root = root.func if isinstance(root, ast.Call) else root.value
+                    if isinstance(root, ast.Name) and root.id in tables and not (isinstance(st.value, ast.Call) and isinstance(st.value.func, ast.Attribute) and st.value.func.attr in ("get", "iterrows", "itertuples", "to_dict", "tolist", "unique", "max", "min")):
+                        tables.add(st.targets[0].id)
+                        changed = True
+        bad = []
+        for c in astq.walk_no_nested(fi.node):
+            if isinstance(c, ast.Call) and isinstance(c.func, ast.Attribute) and c.func.attr in REORDERING:
+                root = c.func.value
+                while isinstance(root, (ast.Call, ast.Attribute, ast.Subscript)):
+                    root = root.func if isinstance(root, ast.Call) else root.value
+                if isinstance(root, ast.Name) and root.id in tables and not (isinstance(c.func.value, ast.Attribute) and c.func.value.attr == "columns"):
+                    bad.append(c)
+            elif isinstance(c, ast.Subscript) and isinstance(c.slice, ast.Slice) and c.slice.step is not None and isinstance(c.slice.step, ast.UnaryOp) and isinstance(c.value, ast.Attribute) and c.value.attr in ("iloc", "loc") and isinstance(c.value.value, ast.Name) and c.value.value.id in tables:
+                bad.append(c)
+        if bad:
+            chk.violation("row-order", fi.site(bad[0]), f"`{norm(bad[0])[:80]}` reorders the table before its rows are written: unless the rows happen to be in that order already, the file holds a permutation of the table (record positions and serial order change), and reading it back does not give the table that was written", K(fi, "row-order"))
+        else:
+            chk.ok("row-order", fi.where, f"{name}: the rows are written in the order of the table (no sort / sample / reindex / reversal of the table or of a table derived from it)")
+
+
+class _Relabel:
+    """A view of the check that records a sibling property's rule under this property's rule id (only the listed rules)."""
+
+    def __init__(self, chk, rules: Dict[str, str]):
+        self._chk, self._rules = chk, rules
+        self.repo, self.robust = chk.repo, chk.robust
+
+    def _r(self, rule: str) -> Optional[str]:
+        return self._rules.get(rule)
+
+    def note_function(self, fi) -> None:
+        self._chk.note_function(fi)
+
+    def ok(self, rule, site, detail):
+        if self._r(rule):
+            self._chk.ok(self._r(rule), site, detail)
+
+    def error(self, rule, site, detail):
+        if self._r(rule):
+            self._chk.error(self._r(rule), site, detail)
+
+    def violation(self, rule, site, detail, key, expected=None, found=None):
+        if self._r(rule):
+            self._chk.violation(self._r(rule), site, detail, key, expected=expected, found=found)
+
+    def expect(self, cond, rule, site, detail_ok, detail_bad, key, expected=None, found=None):
+        if self._r(rule):
+            return self._chk.expect(cond, self._r(rule), site, detail_ok, detail_bad, key, expected=expected, found=found)
+        return bool(cond)
+
+
+def _cross_path_fit(chk) -> None:
+    """The cross path mmCIF -> PDB of the observation point goes through fit_to_pdb, which leaves a table alone exactly when
+    can_write_pdb accepts it.  "Identity whenever the data fit PDB field widths" therefore needs the fit test to accept every table
+    within the widths of the writer's fields (a stricter test sends a fitting table into the renumbering: serials, chains, numbers change)
+    and to reject every other one (over-wide fields).  Decided by C10's reading of can_write_pdb (paths, limits against the folded widths)."""
+    from checks import c10
+
+    chk.robust.add("cross-path-fit")
+    try:
+        c10.check_can_write(_Relabel(chk, {"fit-test": "cross-path-fit"}))
+    except AnalysisError:
+        raise
+    except Exception as ex:
+        chk.error("cross-path-fit", "-", f"reading of can_write_pdb failed internally ({type(ex).__name__}: {str(ex)[:60]})")
+
+
 def check_splitter(chk) -> None:
     """splitter.main (observe point): every model goes through fit_to_pdb -> write_pdb, or write_cif, with the input's format tag."""
     repo = chk.repo
     fi = repo.func("splitter", "main")
     chk.note_function(fi)
+    from checks import c10w
+
+    # facts read along the paths to the writers (whatever the shape of the decision): fitted before written as PDB, split by the
+    # model column, every group tagged with the input format; the pinned form below is the fallback when the paths are not readable
+    decided = False
+    try:
+        decided = c10w.check_fit_before_write(chk, [("splitter", "main")]) and c10w.check_split_by_model(chk)
+    except AnalysisError:
+        raise
+    except Exception as ex:
+        chk.ok("write-paths", fi.where, f"path reading of splitter.main failed internally ({type(ex).__name__}: {str(ex)[:60]}): the pinned form decides")
+    _cross_path_fit(chk)
+    if decided:
+        return
     loops = [l for l in ast.walk(fi.node) if isinstance(l, ast.For) and norm(l.iter) == "grouped_by_model"]
     gb = astq.first_assign(fi.node, "grouped_by_model")
     ok = len(loops) == 1 and gb is not None and norm(gb) == "atoms_df.groupby(model_column)"
@@ -518,9 +644,22 @@ def run(chk) -> None:
     chk.trusted = ["CPython ast", "mmcif writer/reader quoting and tokenising", "pandas dtype coercions", "wwPDB column table"]
     chk.assumptions = ["data fit PDB field widths (the statement's precondition)"]
     chk.robust |= {"writer-layout", "writer-reader-columns", "charge-format", "cif-to-cif", "pdb-record-filter", "pdb-decode-v2", "pdb-slices-agree", "pdb-slices-v2", "value-domain", "null-agreement", "atom-data-keys"}
-    formatter_layout(chk)
-    check_formatter_details(chk)
     from checks import c09e
+
+    # the atom line: decided on the text write_pdb produces for probe rows; the abstract width reading of the formatter's f-strings
+    # (formatter_layout / check_formatter_details) is the fallback when write_pdb is not evaluable
+    lay = None
+    try:
+        lay = c09e.check_atom_line_eval(chk)
+    except AnalysisError:
+        raise
+    except Exception as ex:
+        chk.ok("atom-line-eval", "-", f"evaluation of the atom line failed internally ({type(ex).__name__}: {str(ex)[:60]}): the abstract width reading decides")
+    if lay is None:
+        formatter_layout(chk)
+        check_formatter_details(chk)
+    else:
+        _writer_reader_columns(chk, lay)
 
     evaluated = False
     try:
@@ -533,11 +672,31 @@ def run(chk) -> None:
         check_other_lines(chk)
         check_record_order(chk)
     c09e.check_atom_data_keys(chk)
-    check_field_maps(chk)
+    # the four round trips, every writer and reader interpreted; the reading of the pinned field tables (check_field_maps) is the fallback
+    crossed = False
+    try:
+        crossed = c09e.check_cross_paths_eval(chk)
+    except AnalysisError:
+        raise
+    except Exception as ex:
+        chk.ok("cross-path-eval", "-", f"evaluation of the round trips failed internally ({type(ex).__name__}: {str(ex)[:60]}): the pinned-form rules decide")
+    if crossed:
+        from checks.c15 import _Decided
+
+        try:
+            check_field_maps(_Decided(chk, drop={"field-map-pdb", "field-map-pdb-to-cif", "field-map-cif-to-pdb", "cif-to-cif", "cif-to-cif-form", "numeric-format", "null-agreement"}, quiet={"value-domain"}))
+        except AnalysisError:
+            pass  # the pinned tables are not there any more; what they stood for was decided on the round trips
+    else:
+        check_field_maps(chk)
     check_reader(chk)
+    check_row_order(chk)
     check_splitter(chk)
     for rule, n in (("writer-layout", 17), ("writer-reader-columns", 15), ("ter-line", 5), ("record-order", 6), ("field-map-pdb-to-cif", 2), ("field-map-cif-to-pdb", 1), ("value-domain", 1)):
         chk.floor(rule, n)
+    from checks import w3cross
+
+    w3cross.check(chk, "C09", untouched=(("parser_v2", "write_pdb"), ("parser_v2", "write_cif")))  # state that survives a call: shared memo results, module-level containers, arguments
 
 
 MANIFEST_ENTRY = {
